@@ -30,14 +30,13 @@ ASSUMPTIONS = [
     'FermiHubbardModel parameters are valid (constructor ValueErrors are not explored)',
 ]
 OPEN_STATEMENTS = [
-    'hubbard_sound (operator-level: the Model output of fermi_hubbard / bose_hubbard / mean_field_dwave / FermiHubbardModel denotes the docstring formula for ALL sizes) is not a theorem: covered by the docstring / spec.eq oracles on the explored lattices; proved for all sizes: the bond enumerations equal the Spec edge set (bonds_spec, dwave_bonds_spec, lattice_neighbors_spec, neighbors_ordered_perm, hubbard_generators_agree_bonds), every generated term has zero charge for N (and S_z where the model conserves it) and zero-charge terms preserve the Spec weight of basis states (term_charge_sound), the grid index bijection',
+    'hubbard_sound (operator-level: the Model output of fermi_hubbard / bose_hubbard / mean_field_dwave / FermiHubbardModel denotes the docstring formula for ALL sizes) is not a theorem: covered by the docstring / spec.eq oracles on the explored lattices; proved for all sizes: the bond enumerations equal the Spec edge set (bonds_spec, dwave_bonds_spec, lattice_neighbors_spec, diagonal_neighbors_spec, neighbors_ordered_perm, diagonal_ordered_perm, hubbard_generators_agree_bonds), every generated term has zero charge for N (and S_z where the model conserves it) and zero-charge terms preserve the Spec weight of basis states (term_charge_sound), the grid index bijection',
     'hermitian_generators is covered by the spec.eq oracle only',
     'horizontal_neighbor / vertical_neighbor edge types separately (Spec adjH / adjV) and the onsite edge type: correspondence + Spec oracle only; the theorem is stated for their union (neighbor)',
     'bose_hubbard / mean_field_dwave / FermiHubbardModel: S_z conservation of FermiHubbardModel is covered by the spec.eq oracle only',
     'su2_relations for all n: oracle only (n <= 3)',
     'fourier_transform_unitary_structure / isospectrality: numeric oracle only',
     'isospectrality of momentum-space and position-space jellium fails on non-orthogonal cells with mixed even / >= 3 grid lengths: known finding C13-jellium-sheared-even',
-    'diagonal_neighbors_iter = Spec diagonal edge set (adjD): correspondence + Spec oracle on all lattices x, y <= 7 / 10; no theorem yet',
 ]
 
 EDGE_NAMES = ['onsite', 'neighbor', 'diagonal_neighbor', 'horizontal_neighbor', 'vertical_neighbor']
